@@ -2,6 +2,7 @@
  * json_object object layer of the current working tree.  One line per op:
  *   <ret> <val> n=<count> [<contents in list order>] <iteration output> ## size=.. idx=.. slots=[..] freed=..
  * Keys are C strings given in hex; values are ints (-1 = NULL json_object at the object layer). */
+#define HC_NO_WATCHDOG /* this harness does its own timing */
 #include "hcommon.h"
 #include "json.h"
 #include "linkhash.h"
